@@ -504,14 +504,33 @@ fn gen_scenario(rng: &mut Rng, report: &mut Report) -> Scenario {
     let k = rng.range_usize(1, 4);
     let (base, base_name) = gen_base(rng);
     report.bump(base_name);
-    let nkinds = *rng.pick(&[1usize, 2, 2, 3, 4]);
-    let kinds: Vec<u8> = {
-        let mut all = vec![0u8, 1, 2, 3];
-        for i in (1..4).rev() {
-            all.swap(i, rng.below(i as u64 + 1) as usize);
+    // the schemas of this scenario: (column set / types, variant); "schema" is what `Schema ==`
+    // sees, i.e. including per-field nullability and schema / field metadata
+    let schemas: Vec<(u8, u8)> = match rng.below(10) {
+        // pairs that differ ONLY in a nullability flag or ONLY in metadata (both orders arise
+        // from the random write order and the interleaving)
+        0..=3 => {
+            let k0 = rng.below(4) as u8;
+            let v = *rng.pick(&[1u8, 1, 4, 2, 3]);
+            report.bump(match v {
+                1 | 4 => "schemas.nullability_only_pair",
+                _ => "schemas.metadata_only_pair",
+            });
+            let mut v = vec![(k0, 0u8), (k0, v)];
+            if rng.chance(1, 4) {
+                v.push(((k0 + 1) % 4, 0));
+            }
+            v
         }
-        all.truncate(nkinds);
-        all
+        _ => {
+            let nkinds = *rng.pick(&[1usize, 2, 2, 3, 4]);
+            let mut all = vec![0u8, 1, 2, 3];
+            for i in (1..4).rev() {
+                all.swap(i, rng.below(i as u64 + 1) as usize);
+            }
+            all.truncate(nkinds);
+            all.into_iter().map(|k| (k, if rng.chance(1, 6) { rng.below(5) as u8 } else { 0 })).collect()
+        }
     };
     let max_rows = *rng.pick(&[1usize, 3, 6, 12]);
     let writers: Vec<Vec<BatchSpec>> = (0..k)
@@ -519,8 +538,8 @@ fn gen_scenario(rng: &mut Rng, report: &mut Report) -> Scenario {
             let n = rng.range_usize(1, 5);
             (0..n)
                 .map(|_| {
-                    let kind = *rng.pick(&kinds);
-                    gen_batch(rng, kind, base, max_rows)
+                    let (kind, variant) = *rng.pick(&schemas);
+                    gen_batch_v(rng, kind, variant, base, max_rows)
                 })
                 .collect()
         })
@@ -549,7 +568,22 @@ fn gen_scenario(rng: &mut Rng, report: &mut Report) -> Scenario {
 /// minimised / proof-derived cases that always run first
 fn corpus() -> Vec<(Scenario, Vec<Label>)> {
     let row = |ts: i64, m: u8| RowSpec { ts, metric: Some(m), fval: Some(1.5f64.to_bits()), ival: Some(7), host: Some(0), region: None };
-    let b = |kind: u8, tss: &[i64]| BatchSpec { kind, rows: tss.iter().enumerate().map(|(i, t)| row(*t, i as u8 % 3)).collect() };
+    let b = |kind: u8, tss: &[i64]| BatchSpec { kind, variant: 0, rows: tss.iter().enumerate().map(|(i, t)| row(*t, i as u8 % 3)).collect() };
+    let bv = |kind: u8, variant: u8, tss: &[i64], with_null: bool| BatchSpec {
+        kind,
+        variant,
+        rows: tss
+            .iter()
+            .enumerate()
+            .map(|(i, t)| {
+                let mut r = row(*t, i as u8 % 3);
+                if with_null && i == 0 {
+                    r.host = None;
+                }
+                r
+            })
+            .collect(),
+    };
     let big = 1usize << 40;
     vec![
         // the Coq non-vacuity example: schema change while another writer appends, tick flush, shutdown
@@ -571,6 +605,21 @@ fn corpus() -> Vec<(Scenario, Vec<Label>)> {
         (
             Scenario { flush_rows: 1, flush_bytes: big, max_bytes: big, writers: vec![vec![b(0, &[i64::MAX]), b(1, &[i64::MIN, i64::MIN + 1]), b(1, &[i64::MAX, i64::MAX - H])]] },
             parse_sched("W0 W0 W0 W0 W0 W0 X"),
+        ),
+        // schemas that differ ONLY in the nullability of `host`: non-nullable first, then nullable with a
+        // real null (concat against the first batch's schema would reject the null), and the reverse order
+        (
+            Scenario { flush_rows: 100, flush_bytes: big, max_bytes: big, writers: vec![vec![bv(0, 1, &[1, 2], false), bv(0, 0, &[3, 4], true), bv(0, 1, &[5], false)]] },
+            parse_sched("W0 W0 W0 A1000 T X"),
+        ),
+        (
+            Scenario { flush_rows: 100, flush_bytes: big, max_bytes: big, writers: vec![vec![bv(1, 0, &[1], true)], vec![bv(1, 1, &[2], false)], vec![bv(1, 4, &[3], false)]] },
+            parse_sched("W0 W1 W2 W1 W2 X T"),
+        ),
+        // schemas that differ ONLY in schema-level / field-level metadata
+        (
+            Scenario { flush_rows: 100, flush_bytes: big, max_bytes: big, writers: vec![vec![bv(2, 0, &[1], true), bv(2, 2, &[2], true), bv(2, 3, &[3], false), bv(2, 0, &[4], false)]] },
+            parse_sched("W0 W0 W0 W0 W0 W0 W0 X T"),
         ),
         // a zero-row batch is acknowledged at once and stores nothing
         (
@@ -643,7 +692,7 @@ fn main() {
         } else {
             report.bump("end.not_quiescent");
         }
-        let kinds: std::collections::BTreeSet<u8> = scn.writers.iter().flatten().map(|b| b.kind).collect();
+        let kinds: std::collections::BTreeSet<(u8, u8)> = scn.writers.iter().flatten().map(|b| (b.kind, b.variant)).collect();
         report.bump(&format!("schemas.{}", kinds.len()));
         let (differs, model_out) = model.differs(&line, &out.line_tail);
         report.sample(json!({"case": line, "impl": out.line_tail, "model": model_out}));
